@@ -40,7 +40,7 @@ def main():
         "hooks": {
             "guard": "verif",
             "enable": "none needed: static analysis reads /repo's sources; no instrumentation exists",
-            "baseline_off_cmd": "cd /repo && go test -vet=off -count=1 ./...",
+            "baseline_off_cmd": "for m in $(cat /w/out/gomods.txt); do MF=$(cd /repo/$m && . /w/out/goenv.sh && gomodflag); (cd /repo/$m && go test $MF -json -vet=off -count=1 -timeout 25m ./...); done",
             "source_commits": [],
             "add_only": True,
         },
